@@ -32,6 +32,9 @@ pub struct Def {
     pub w: W,
     pub with_v: bool,
     pub len: usize,
+    /// built with the run-time `choice([..])` function rather than `construct!([..])`
+    #[serde(default)]
+    pub choice_fn: bool,
 }
 
 const S1: [char; 4] = ['a', 'b', 'c', 'd'];
@@ -55,7 +58,8 @@ fn alt(k: A, i: usize) -> P {
 }
 
 pub fn to_opts(d: &Def) -> Opts {
-    let c = P::Alt(d.ks.iter().enumerate().map(|(i, k)| alt(*k, i)).collect());
+    let members: Vec<P> = d.ks.iter().enumerate().map(|(i, k)| alt(*k, i)).collect();
+    let c = if d.choice_fn { P::Choice(members) } else { P::Alt(members) };
     let cw = match d.w {
         W::Bare => c,
         W::Opt => c.opt(),
@@ -382,10 +386,10 @@ impl Check for C07 {
             for with_v in [false, true] {
                 for a in kinds {
                     for b in kinds {
-                        out.push(Def { ks: vec![a, b], w, with_v, len: tier.pick(5, 6) });
+                        out.push(Def { ks: vec![a, b], w, with_v, len: tier.pick(5, 6), choice_fn: false });
                         if !with_v {
                             for c in kinds {
-                                out.push(Def { ks: vec![a, b, c], w, with_v, len: tier.pick(4, 5) });
+                                out.push(Def { ks: vec![a, b, c], w, with_v, len: tier.pick(4, 5), choice_fn: false });
                             }
                         }
                     }
@@ -400,13 +404,22 @@ impl Check for C07 {
                     for b in k4 {
                         for c in k4 {
                             for e in k4 {
-                                out.push(Def { ks: vec![a, b, c, e], w, with_v: false, len: 4 });
+                                out.push(Def { ks: vec![a, b, c, e], w, with_v: false, len: 4, choice_fn: false });
                             }
                         }
                     }
                 }
             }
         }
+        // the same choices assembled by the run-time `choice([..])` function
+        let mut via_fn: Vec<Def> = out.iter().cloned().map(|mut d| {
+            d.choice_fn = true;
+            if tier == Tier::Quick {
+                d.len = d.len.min(3);
+            }
+            d
+        }).collect();
+        out.append(&mut via_fn);
         out.into_iter().map(|d| serde_json::to_value(d).unwrap()).collect()
     }
     fn run_unit(&self, unit: &Value, ctx: &mut Ctx) {
@@ -436,7 +449,7 @@ impl Check for C07 {
         }
     }
     fn rule(&self) -> String {
-        "definitions = construct!([a1..an]) for every ordered tuple of n=2,3 (thorough: also 4) alternatives from {req_flag, argument, switch, argument with fallback, group of two arguments, group flag+argument, command}, the choice bare / optional / many / some, with and without a neighbouring switch; every vector of the token tree over the alternatives' names, two values, command names; reference model: T = alternatives whose names occur; |T|=0 -> first alternative accepting the empty line, |T|=1 -> that alternative's grammar, |T|>=2 -> failure; many/some over single-item alternatives -> list in command-line order; state = (definition, vector); non-trivial = judged vector containing at least one alternative's item".into()
+        "definitions = construct!([a1..an]) and choice([a1..an]) (the run-time function; quick: vectors up to 3 items) for every ordered tuple of n=2,3 (thorough: also 4) alternatives from {req_flag, argument, switch, argument with fallback, group of two arguments, group flag+argument, command}, the choice bare / optional / many / some, with and without a neighbouring switch; every vector of the token tree over the alternatives' names, two values, command names; reference model: T = alternatives whose names occur; |T|=0 -> first alternative accepting the empty line, |T|=1 -> that alternative's grammar, |T|>=2 -> failure; many/some over single-item alternatives -> list in command-line order; state = (definition, vector); non-trivial = judged vector containing at least one alternative's item".into()
     }
     fn bounds(&self, tier: Tier) -> Value {
         json!({"alternatives": tier.pick("2..3", "2..4"), "vector_length": tier.pick("5 (n=2), 4 (n=3)", "6 (n=2), 5 (n=3), 4 (n=4)")})
